@@ -223,25 +223,55 @@ def rule_ticket(ctx):
 def rule_invalidate(ctx):
     R = "C13.INVALIDATE"
     n = 0
-    for f in ctx.index.all_functions():
-        for x in own_nodes(f.node):
+    OWN = ("__init__", "_setResumable", "create", "_clone")
+
+    def writes_of(fnode):
+        """(node, value expr) for every write of a session's `resumable` flag: direct assignment or a
+        call of Session._setResumable."""
+        out = []
+        for x in own_nodes(fnode):
             if isinstance(x, ast.Assign):
                 for t in x.targets:
                     c = attr_chain(t)
-                    if c and c.endswith(".resumable") and f.name not in ("__init__", "_setResumable", "create", "_clone"):
-                        n += 1
-                        ok = f.qname == TLSREC + "_shutdown" and isinstance(x.value, ast.Constant) \
-                            and x.value.value is False
-                        ctx.check(R, ok, f.qname, x, "Session.resumable is written outside _shutdown "
-                                  "(or set to something other than False)", f.loc(x))
+                    if c and c.endswith(".resumable"):
+                        out.append((x, x.value))
+            elif isinstance(x, ast.Call) and call_name(x) in ("_setResumable", "setattr"):
+                if call_name(x) == "setattr":
+                    if len(x.args) == 3 and isinstance(x.args[1], ast.Constant) and x.args[1].value == "resumable":
+                        out.append((x, x.args[2]))
+                elif x.args:
+                    out.append((x, x.args[0]))
+        return out
+    for f in ctx.index.all_functions():
+        if f.name in OWN and f.cls is not None and f.cls.name == "Session":
+            continue
+        for x, v in writes_of(f.node):
+            n += 1
+            ok = f.qname == TLSREC + "_shutdown" and isinstance(v, ast.Constant) and v.value is False
+            ctx.check(R, ok, f.qname, "`%s` clears the flag" % norm(x)[:60],
+                      "Session.resumable is written outside _shutdown or set to something other than the constant "
+                      "False (`%s`): an invalidated session can become resumable again" % norm(x)[:80], f.loc(x))
     ctx.require(n >= 1, "C13.INVALIDATE: no write of .resumable found")
     sh = ctx.index.func(TLSREC + "_shutdown")
     g = ctx.an.cfg(sh)
-    t = [x for x in g.nodes if x.kind == "test" and norm(x.expr) == "not resumable and self.session"]
-    w = [x for x in g.nodes if x.kind == "stmt" and norm(x.ast) == "self.session.resumable = False"]
-    ok = bool(t) and bool(w) and w[0] in g.succ_on(t[0], "T")
-    ctx.check(R, ok, sh.qname, "non-resumable shutdown invalidates the session",
-              "_shutdown(False) must clear session.resumable whenever a session exists", sh.loc())
+    from ..query import truthy_edges, falsy_edges
+    clears = []
+    for x, v in writes_of(sh.node):
+        if isinstance(v, ast.Constant) and v.value is False:
+            clears += [nd for nd in g.nodes if nd.ast is not None and any(y is x for y in ast.walk(nd.ast))
+                       and nd.kind == "stmt"]
+    # paths of _shutdown(resumable=False) with a session present: decide each test under that assumption
+    from ..condeval import ev, Unknown
+    cut = set()
+    for t in g.nodes:
+        if t.kind == "test" and t.expr is not None:
+            try:
+                val = ev(t.expr, {"resumable": False, "self.session": True})
+            except (Unknown, TypeError):
+                continue
+            cut.add((t.id, "F" if val else "T"))
+    must_pass(ctx, R, sh, g, [g.entry], [g.exit], clears, "non-resumable shutdown invalidates the session",
+              "_shutdown(False) must clear session.resumable whenever a session exists", cut=cut, start_after=False)
     # session.valid() consults resumable
     v = ctx.index.func("session:Session.valid")
     ret = [x for x in own_nodes(v.node) if isinstance(x, ast.Return)]
